@@ -230,8 +230,37 @@ func c13Inputs(r *rand.Rand, env *Env, idx, nIn int) []string {
 			inputs[i] = fmt.Sprintf(`<a href="%s" rel="x">a</a><img src="%s" alt="i"><blockquote cite="%s">q</blockquote><video poster="%s" src="%s"></video><iframe src="%s"></iframe><q cite="%s">q</q>`,
 				gen.CanonEscape(u()), gen.CanonEscape(u()), gen.CanonEscape(u()), gen.CanonEscape(u()), gen.CanonEscape(u()), gen.CanonEscape(u()), gen.CanonEscape(u()))
 		}
+		if i%5 == 2 {
+			// the same attribute text on elements the policy treats differently (one element per input,
+			// and all of them in one input): a result must not depend on which was seen first
+			sty := gen.Pick(r, []string{"float: left", "color: red", "margin: abc; color: blue", "width: 10px", "color: blue; float: right", "COLOR: RED"})
+			val := gen.Pick(r, []string{"abc", "42", "#abc", "left", "x-a1"})
+			els := []string{"div", "span", "p", "my-x", "my-y", "x-foo", "b", "td", "a"}
+			if r.Intn(3) == 0 {
+				var b strings.Builder
+				for _, el := range els {
+					fmt.Fprintf(&b, `<%s style="%s" id="%s" title="%s">t</%s>`, el, sty, val, val, el)
+				}
+				inputs[i] = b.String()
+			} else {
+				el := els[r.Intn(len(els))]
+				inputs[i] = fmt.Sprintf(`<%s style="%s" id="%s" title="%s">t</%s>`, el, sty, val, val, el)
+			}
+		}
 		if len(inputs[i]) > 1500 {
 			inputs[i] = inputs[i][:1500]
+		}
+	}
+	// one large input (output beyond 64 KiB) for two of the policies: size-dependent bookkeeping is reached too
+	if nIn > 20 && (idx == 1 || idx == 4) {
+		for k, sz := range []int{68000} {
+			var b strings.Builder
+			for b.Len() < sz {
+				b.WriteString("<p>paragraph <b>bold</b> &amp; text ")
+				b.WriteString(gen.RandIdent(r, 8))
+				b.WriteString("</p>\n")
+			}
+			inputs[11+k*13] = b.String()
 		}
 	}
 	return inputs
@@ -318,6 +347,15 @@ func c13Stress(ctx *core.Ctx, only int) {
 			}
 			return w
 		}
+		// history independence: every input through a policy instance that has never seen anything else
+		// must give what the shared instance gave after having seen all the inputs before it
+		for i, in := range inputs {
+			if got := spec.Build(env.Ops).Sanitize(in); got != base[i] {
+				cs.Violate("C13:depends-on-earlier-calls:"+firstDiffToken(got, base[i]), fmt.Sprintf("a policy that has sanitised other inputs before returns %q, a freshly built equal policy returns %q; input=%q", core.Clip(base[i], 200), core.Clip(got, 200), core.Clip(in, 200)), wit(i, map[string]interface{}{"fresh_instance_result": core.Show(got)}))
+				break
+			}
+		}
+		cs.Count("history_independence_comparisons", nIn)
 		// sequential repetition: map iteration order is re-randomised per range
 		for i, in := range inputs {
 			for k := 0; k < repeats; k++ {
